@@ -410,6 +410,26 @@ func runC05Schedule(r *rng, nEvents int, script []string) (c05Case, error) {
 					cs.Events = append(cs.Events, c05Event{Kind: "restart", Node: m})
 				}
 			}
+		case 'D':
+			// appends (and snapshots) to replica n are lost at the sender - an error, as for a link that is down - while
+			// heartbeats still pass: the replica falls behind without ever campaigning
+			c.nodes[n].mu.Lock()
+			c.nodes[n].raftFault = func(m *raftpb.Message) bool { return m.Type == raftpb.MsgApp || m.Type == raftpb.MsgSnap }
+			c.nodes[n].mu.Unlock()
+			cs.Events = append(cs.Events, c05Event{Kind: "lose-appends", Node: n})
+		case 'E':
+			// appends to n pass again; the first snapshot message to n still fails (once), after that nothing is lost
+			failed := false
+			c.nodes[n].mu.Lock()
+			c.nodes[n].raftFault = func(m *raftpb.Message) bool {
+				if m.Type == raftpb.MsgSnap && !failed {
+					failed = true
+					return true
+				}
+				return false
+			}
+			c.nodes[n].mu.Unlock()
+			cs.Events = append(cs.Events, c05Event{Kind: "first-snapshot-message-fails", Node: n})
 		case 'L':
 			// a long stretch of writes (more log entries than the periodic snapshot waits for), one after the other
 			ensureLeader()
@@ -775,7 +795,7 @@ func runC05Schedule(r *rng, nEvents int, script []string) (c05Case, error) {
 
 func runC05(a *args) error {
 	r := newRng(a.seed)
-	st := newStats("3-replica partition groups on a simulated cluster: eight scripted prologues (the eighth: bursts of four concurrent writers with slowed durable writes, payloads of committed positions compared between replicas; the seventh: the recorded finding; the fifth and sixth: a replica added to a running group through partition.addNode and a proposed join; the fourth: a replica brought up to date by a snapshot message after the others compacted) (a deposed leader's uncommitted tail overwritten by a shorter suffix, then a restart of that replica - twice; writes, idling, local snapshot + compaction on every replica, then each replica restarted in turn) and schedules of 25..45 events — writes through any connected node (55%), cutting one node off / healing (message loss in both directions), crash of one replica (clean stop or abrupt) and restart through the real boot path with the partition's node ids; every raft message checked against the sender's durable state (vote grants, append acknowledgements, terms), every Save checked for a hard state moving backwards, every reopened log compared with the log that was made durable (last index, term at every index), convergence and explained contents after faults stop; non-trivial = contains a crash+restart and a cut; distinct by hash of the event list")
+	st := newStats("3-replica partition groups on a simulated cluster: nine scripted prologues (the ninth: a replica whose appends are lost while heartbeats pass, brought up to date by a snapshot message that fails once; the eighth: bursts of four concurrent writers with slowed durable writes, payloads of committed positions compared between replicas; the seventh: the recorded finding; the fifth and sixth: a replica added to a running group through partition.addNode and a proposed join; the fourth: a replica brought up to date by a snapshot message after the others compacted) (a deposed leader's uncommitted tail overwritten by a shorter suffix, then a restart of that replica - twice; writes, idling, local snapshot + compaction on every replica, then each replica restarted in turn) and schedules of 25..45 events — writes through any connected node (55%), cutting one node off / healing (message loss in both directions), crash of one replica (clean stop or abrupt) and restart through the real boot path with the partition's node ids; every raft message checked against the sender's durable state (vote grants, append acknowledgements, terms), every Save checked for a hard state moving backwards, every reopened log compared with the log that was made durable (last index, term at every index), convergence and explained contents after faults stop; non-trivial = contains a crash+restart and a cut; distinct by hash of the event list")
 	var cases []c05Case
 	seen := map[string]bool{}
 	for i := 0; i < a.n; i++ {
@@ -799,6 +819,10 @@ func runC05(a *args) error {
 		case 4:
 			// a third replica joins a running two-replica group: it must take the group's log, not start one of its own
 			script = []string{"G12", "W1", "W2", "W1", "S", "A3", "S", "W1", "W3", "W2", "S"}
+		case 8:
+			// a replica falls behind (its appends are lost, heartbeats pass), the others compact their logs, then the
+			// first snapshot message to it fails once: it must still be brought up to date
+			script = []string{"G123", "W1", "S", "D3", "W1", "W2", "W1", "W2", "S", "P1", "P2", "E3", "S", "W1", "S", "S"}
 		case 7:
 			// bursts of concurrent writes through the leader and through a follower
 			script = []string{"W1", "S", "X1", "X1", "X2", "S", "X1", "X3", "S", "W2", "S"}
@@ -811,7 +835,7 @@ func runC05(a *args) error {
 			// one replica grows to two, then to three
 			script = []string{"G1", "W1", "W1", "W1", "S", "A2", "S", "W1", "W2", "A3", "S", "W3", "S"}
 		}
-		if a.tier == "thorough" && i == 8 {
+		if a.tier == "thorough" && i == 9 {
 			// the periodic snapshot of the real loop: more than 5000 entries, then the 10 s tick on a replica whose durable
 			// writes are slow while the others take writes; that replica then crashes and restarts from what it stored
 			script = []string{"G123", "L", "T1", "S", "K1", "S", "R", "S"}
